@@ -74,6 +74,12 @@ def gen_cases(rng, tier):
     for edges in all_graphs(small):                 # exhaustive on 3 names: 63 graphs
         for remove in (True, False):
             cases.append(mk_case(rng, small, edges, remove))
+    # an entry that mentions ITSELF among its components (a cycle of length 1), alone or next to up to two other edges
+    others = [(a, b) for a in small for b in small if a != b]
+    for x in small:
+        extra = [[]] + [[p] for p in others] + [[p, q] for i, p in enumerate(others) for q in others[i + 1:]]
+        for ex in extra:
+            cases.append(mk_case(rng, small, [(x, x)] + ex, rng.random() < 0.5))
     if tier == "thorough":
         four = NAMES[:4]
         graphs = list(all_graphs(four))             # 4095 graphs
@@ -89,6 +95,9 @@ def gen_cases(rng, tier):
         if rng.random() < 0.1 and len(edges) >= 1:
             a, b = rng.choice(edges)
             edges.append((b, a))                      # a cycle now and then
+        if rng.random() < 0.05:
+            x = rng.choice(names)
+            edges.append((x, x))                      # ... or an entry that lists itself
         if not edges:
             edges = [(order[0], order[1])]
         cases.append(mk_case(rng, names, edges, rng.random() < 0.5))
